@@ -21,61 +21,79 @@ def C17_statement : Prop :=
   ∀ (progs : List (List Op)) (sched : List Tid), blockedAt (init progs) sched 0 = none →
     RestartFaithful (lastState (init progs) sched)
 
-/-! Refuted. Witness (drop is not final): thread 0 creates `a` and starts `insert a.r(1)`: the KG lookup
-    of its first step succeeds; thread 1 drops `a` completely (tombstone, removal, shard deletion,
-    tombstone removed) and is acknowledged; thread 0 continues: no tombstone any more, so it persists
-    the tuple under shard `a:r`, then fails at the second KG lookup. After a restart `a` is back — with
-    the tuple. -/
-def wProgs : List (List Op) := [[.create (n "a"), .ins (n "a") (n "r") 1], [.drop (n "a")]]
-def wSched : List Tid := [0, 0, 0, 0, 0, 1, 1, 1, 1, 1, 1, 0, 0, 0]
+/-! Still refuted — by the one defect family that is deliberately left in place (`sanitize_name` cannot be
+    changed without breaking on-disk compatibility): shards `a_b:c` and `a:b_c` share the metadata file
+    `a_b_c.json`; whichever KG is saved last keeps its data, the other's relation is empty after restart.
+    A purely sequential history (one thread). -/
+def collisionHist : List Op :=
+  [.create (n "a_b"), .create (n "a"), .ins (n "a_b") (n "c") 1, .ins (n "a") (n "b_c") 2, .save (n "a_b"), .save (n "a")]
+def wSched : List Tid := List.replicate 40 0
 
 theorem C17_refuted : ¬ C17_statement := by
   intro h
-  have h1 := (h wProgs wSched (by decide)).1 (n "a")
-  have : (lookup (n "a") (restart (lastState (init wProgs) wSched)).kgs).isSome = true := by decide
-  have : (lookup (n "a") (lastState (init wProgs) wSched).kgs).isSome = false := by decide
-  simp_all
-
-example : ((lastState (init wProgs) wSched).threads 1).done = [(.drop (n "a"), .ok)] := by decide
-example : ((lastState (init wProgs) wSched).threads 0).done.map (·.2) = [.ok, .nf] := by decide
-example : (lookup (n "a") (restart (lastState (init wProgs) wSched)).kgs) = some [(n "r", [1])] := by decide
-
-/-! The sequential name defects refute the same statement without any concurrency. -/
+  have h1 := (h [collisionHist] wSched (by decide)).2 (n "a_b") (n "c") 1
+  have hl : 1 ∈ ((lookup (n "a_b") (lastState (init [collisionHist]) wSched).kgs).bind (lookup (n "c"))).getD [] := by decide
+  have hr : ¬ 1 ∈ ((lookup (n "a_b") (restart (lastState (init [collisionHist]) wSched)).kgs).bind (lookup (n "c"))).getD [] := by decide
+  exact hr (h1.mpr hl)
 
 /-- `sanitize_name` is not injective on shard names: KG `a_b`/relation `c` and KG `a`/relation `b_c`
     share the metadata file `a_b_c.json`. -/
 theorem C17_names_refuted :
     shardName (n "a_b") (n "c") ≠ shardName (n "a") (n "b_c") ∧
-    sanitize (shardName (n "a_b") (n "c")) = sanitize (shardName (n "a") (n "b_c")) ∧
-    kgOf (shardName (n "x:y") (n "r")) ≠ n "x:y" := by decide
+    sanitize (shardName (n "a_b") (n "c")) = sanitize (shardName (n "a") (n "b_c")) := by decide
 
-/-- colliding file names: whichever KG is saved last keeps its data, the other one's is gone after restart -/
-def collisionHist : List Op :=
-  [.create (n "a_b"), .create (n "a"), .ins (n "a_b") (n "c") 1, .ins (n "a") (n "b_c") 2, .save (n "a_b"), .save (n "a")]
 example : (lookup (n "a_b") (runSeq collisionHist).kgs) = some [(n "c", [1])] := by decide
 example : (lookup (n "a_b") (restart (runSeq collisionHist)).kgs) = some [] := by decide
 
-/-- a KG name containing `:` is rediscovered as its prefix: KG `x` appears out of nowhere -/
-def colonHist : List Op := [.create (n "x:y"), .ins (n "x:y") (n "r") 3]
-example : (lookup (n "x") (runSeq colonHist).kgs) = none := by decide
-example : (lookup (n "x") (restart (runSeq colonHist)).kgs) = some [(n "y:r", [3])] := by decide
+/-! ### repaired classes — the former counter-examples now behave -/
 
-/-- dropping KG `x` deletes the shards of KG `x:y` (prefix test) -/
-def colonDropHist : List Op := [.create (n "x:y"), .create (n "x"), .ins (n "x:y") (n "r") 3, .drop (n "x")]
-example : (lookup (n "x:y") (runSeq colonDropHist).kgs) = some [(n "r", [3])] := by decide
-example : (lookup (n "x:y") (restart (runSeq colonDropHist)).kgs) = some [] := by decide
+/-- `:` is rejected in KG names … -/
+example : ((runSeq [.create (n "x:y")]).threads 0).done.map (·.2) = [.inv] := by decide
+/-- … and for the names `create_knowledge_graph` accepts, start-up discovery (`split(':').next()`) maps every
+    shard back to its own KG and the `starts_with("{kg}:")` test of load / save / drop never matches a
+    shard of another accepted KG — for all names and relations. -/
+theorem C17_discovery_exact (k rel : Name) (hk : validName k = true) : kgOf (shardName k rel) = k :=
+  kgOf_shardName k rel (validName_no_colon k hk)
 
-/-- a delete addressed to a dropped KG fails, but its shard is persisted first: the KG is back after restart -/
+theorem C17_prefix_exact (k' k rel : Name) (hk' : validName k' = true) (hk : validName k = true)
+    (h : hasPrefix k' (shardName k rel) = true) : k' = k :=
+  hasPrefix_shardName k' k rel (validName_no_colon k' hk') (validName_no_colon k hk) h
+
+example : validName (n "v1.0") = true ∧ validName (n "x:y") = false := by decide
+
+/-- insert overtaken by a complete drop: the re-check under the tombstone guard fails the insert before
+    anything is persisted; the dropped KG stays gone after restart -/
+def raceProgs : List (List Op) := [[.create (n "a"), .ins (n "a") (n "r") 1], [.drop (n "a")]]
+def raceSched : List Tid := [0, 0, 0, 0, 0, 1, 1, 1, 1, 1, 1, 0, 0, 0]
+example : ((lastState (init raceProgs) raceSched).threads 0).done.map (·.2) = [.ok, .nf] := by decide
+example : (lastState (init raceProgs) raceSched).persistedForMissing = false := by decide
+example : (lookup (n "a") (restart (lastState (init raceProgs) raceSched)).kgs) = none := by decide
+
+/-- Full for sequential histories (any operations incl. restarts, any names): no write is ever persisted for
+    a KG that is not in the map — the ghost flag of the repaired class stays false. (For concurrent
+    schedules the same is exercised by the scheduled correspondence; the argument — while the tombstone
+    read guard is held no drop can tombstone, and a drop that tombstoned earlier has either left its
+    tombstone or already removed the KG — is in fixes/C17-write_persisted_for_missing_kg.msg. It needs that
+    no two drops of the same KG overlap: tombstones are a set, not a counter.) -/
+theorem C17_no_write_for_missing_kg_sequential (ops : List Op) (sched : List Tid) :
+    (lastState (init [ops]) sched).persistedForMissing = false :=
+  (lastState_good sched _ (good_init ops)).2.1
+
+/-- a delete addressed to a dropped KG fails without creating a shard -/
 def deleteHist : List Op := [.create (n "a"), .ins (n "a") (n "r") 1, .drop (n "a"), .del (n "a") (n "r") 1]
 example : ((runSeq deleteHist).threads 0).done.map (·.2) = [.ok, .insd 1 0, .ok, .nf] := by decide
-example : (lookup (n "a") (restart (runSeq deleteHist)).kgs).isSome = true := by decide
+example : (lookup (n "a") (restart (runSeq deleteHist)).kgs) = none := by decide
 
-/-- two metadata savers: `create b` collects the KG list (with `a`), `drop a` completes, `create b` writes
-    its stale list: `a` is listed again after the acknowledged drop -/
+/-- two metadata savers: `create b` holds the metadata mutex from collecting the KG list to writing it, so
+    `drop a` cannot write in between — the schedule that used to leave a stale list is now blocked on the mutex -/
 def metaProgs : List (List Op) := [[.create (n "a"), .create (n "b")], [.drop (n "a")]]
 def metaSched : List Tid := [0, 0, 0, 0, 0, 0, 0, 1, 1, 1, 1, 1, 1, 0]
-example : (lastState (init metaProgs) metaSched).staleMetaWrite = true := by decide
-example : (lookup (n "a") (restart (lastState (init metaProgs) metaSched)).kgs).isSome = true := by decide
+example : blockedAt (init metaProgs) metaSched 0 = some 9 := by decide
+/-- letting `create b` finish first: the file ends up current -/
+def metaSched2 : List Tid := [0, 0, 0, 0, 0, 0, 0, 1, 1, 0, 1, 1, 1, 1]
+example : blockedAt (init metaProgs) metaSched2 0 = none := by decide
+example : (lookup (n "a") (restart (lastState (init metaProgs) metaSched2)).kgs) = none := by decide
+example : (lookup (n "b") (restart (lastState (init metaProgs) metaSched2)).kgs).isSome = true := by decide
 
 /-- Partial result (holds for *all* names): between restarts, a step of an operation addressed to KG `a`
     never changes whether another KG `b` exists nor any of `b`'s live relations. The isolation failures
